@@ -193,7 +193,7 @@ func aggregate(obls []*Obl) map[string]*NamedResult {
 			continue // not solved in this run
 		}
 		// precedence: sat > error > unknown/timeout
-		if r.Status == "discharged" || (o.Status == "sat" && r.Status != "sat") {
+		if r.Status == "discharged" || (o.Status == "sat" && r.Status != "sat") || (r.Status == "not-attempted" && o.Status != "not-attempted") {
 			r.Status = o.Status
 			r.Worst = o
 		}
@@ -212,6 +212,7 @@ type runOutput struct {
 	notes    []string
 	contractErrs int
 	outside  map[string]string
+	stale    map[string]string // functions whose contract names an identifier that no longer exists
 }
 
 func (w *World) runProperty(prop string, tmo int, dir string, only map[string]bool, shortTmo int) *runOutput {
@@ -228,6 +229,12 @@ func (w *World) runPropertySkip(prop string, tmo int, dir string, only map[strin
 		for _, n := range r.Notes {
 			if strings.HasPrefix(n, "CONTRACT-ERROR") {
 				out.notes = append(out.notes, n)
+				if strings.Contains(n, "unknown identifier") {
+					if out.stale == nil {
+						out.stale = map[string]string{}
+					}
+					out.stale[r.Key] = n
+				}
 			}
 		}
 		if r.Outside != "" {
@@ -258,9 +265,12 @@ func (w *World) runPropertySkip(prop string, tmo int, dir string, only map[strin
 	}
 	out.nobls = len(all)
 	// solve ledger obligations with the full limit, others with the short one
-	var main, rest []*Obl
+	var main, rest, mid []*Obl
 	for _, o := range all {
-		if only == nil || only[o.Name] {
+		if w.midNames[o.Name] && w.midTmo > 0 {
+			// known findings: expected to fail; a short limit is enough to notice that one is repaired
+			mid = append(mid, o)
+		} else if only == nil || only[o.Name] {
 			main = append(main, o)
 		} else if skip[o.Name] {
 			o.Status = "skipped"
@@ -269,7 +279,10 @@ func (w *World) runPropertySkip(prop string, tmo int, dir string, only map[strin
 			rest = append(rest, o)
 		}
 	}
-	w.solveAll(main, SolveOpts{Timeout: tmo, Dir: dir, Parallel: 16, CrossCheck: false})
+	w.solveAll(main, SolveOpts{Timeout: tmo, Dir: dir, Parallel: 16, CrossCheck: false, StopAfter: w.stopAfter})
+	if len(mid) > 0 {
+		w.solveAll(mid, SolveOpts{Timeout: w.midTmo, Dir: dir, Parallel: 16})
+	}
 	if shortTmo > 0 {
 		w.solveAll(rest, SolveOpts{Timeout: shortTmo, Dir: dir, Parallel: 16})
 	}
@@ -436,6 +449,14 @@ func cmdCheck(args []string) {
 	for n := range knownObl {
 		only[n] = true
 	}
+	if *tier != "thorough" {
+		w.stopAfter = 24
+		w.midNames = map[string]bool{}
+		for n := range knownObl {
+			w.midNames[n] = true
+		}
+		w.midTmo = 8
+	}
 	skip := map[string]bool{}
 	if *tier != "thorough" {
 		// obligations that were already undecided on the unchanged tree are not re-attempted in the quick tier
@@ -472,6 +493,7 @@ func cmdCheck(args []string) {
 	replayDir := filepath.Join(*verif, "replay", *prop)
 	violations := 0
 	var undecided, unattached, knownHit []string
+	notAttempted := 0
 	discharged := 0
 	claimed := 0
 	names := sortedResultNames(ro.results)
@@ -490,6 +512,14 @@ func cmdCheck(args []string) {
 			claimed++
 			if r.Status == "discharged" {
 				discharged++
+			} else if r.Status == "not-attempted" {
+				notAttempted++
+			} else if why, isStale := ro.stale[strings.SplitN(n, "#", 2)[0]]; isStale {
+				// the function's contract refers to a name that no longer exists (a renamed local or
+				// parameter): its clauses cannot be stated, so what depended on them is undecided, not refuted
+				fmt.Printf("STALE-CONTRACT property=%s obligation=%s status=%s (%s)\n", *prop, n, r.Status, strings.TrimSpace(strings.TrimPrefix(why, "CONTRACT-ERROR")))
+				undecided = append(undecided, n)
+				claimed--
 			} else {
 				violations++
 				path := writeReplay(replayDir, *prop, r, w)
@@ -542,6 +572,9 @@ func cmdCheck(args []string) {
 					if strings.Contains(note, " "+label+": ") && strings.Contains(note, "unknown identifier") {
 						stable = false
 					}
+				}
+				if _, isStale := ro.stale[parts[0]]; isStale {
+					stable = false
 				}
 			}
 			if stable {
@@ -667,6 +700,9 @@ func cmdCheck(args []string) {
 	os.MkdirAll(filepath.Join(*verif, "evidence"), 0755)
 	data, _ := json.MarshalIndent(ev, "", " ")
 	os.WriteFile(filepath.Join(*verif, "evidence", *prop+".json"), append(data, '\n'), 0644)
+	if notAttempted > 0 {
+		fmt.Printf("NOTE %d further ledger obligations were not attempted after %d had failed\n", notAttempted, w.stopAfter)
+	}
 	fmt.Printf("%s %s: %d/%d ledger obligations discharged, %d undecided (not claimed), %d known findings, %d unattached, %.1fs\n",
 		*prop, *tier, discharged, claimed, len(undecided), len(knownHit), len(unattached), time.Since(start).Seconds())
 	if claimed == 0 {
